@@ -93,4 +93,37 @@ def getNSeq (view : String → List Cfg) : Cache → List String → List Route
     let (r, cache') := getN view cache t
     r :: getNSeq view cache' ts
 
+/-! ### replica indices and errors of the selected hashring
+
+  `multiHashring.GetN(tenant, ts, n)` selects the hashring by the tenant alone, stores it in the
+  cache and then returns whatever `hashrings[i].GetN(tenant, ts, n)` returns — also its error
+  (hashmod rings have no minimum size: `n ≥ len` gives "insufficient nodes; have len, want n+1").
+  The sub-hashrings are modelled by their sizes. -/
+
+inductive Ans where
+  | served (i : Nat)                   -- a node of hashring `i`
+  | insufficient (i : Nat) (size : Nat) -- hashring `i` was selected and has only `size` nodes
+  | noRing                             -- "no matching hashring to handle tenant"
+  | matchErr                           -- "error matching tenant pattern"
+  | servedOrErr (i : Nat)              -- map-order dependent (malformed pattern), not claimed
+  deriving DecidableEq, Repr
+
+/-- what the selected hashring answers for replica index `n` -/
+def answer (sizes : List Nat) (n : Nat) : Route → Ans
+  | .ring i =>
+    match sizes[i]? with
+    | some s => if n < s then .served i else .insufficient i s
+    | none => .noRing
+  | .none => .noRing
+  | .err => .matchErr
+  | .ringOrErr i => .servedOrErr i
+
+/-- a history of `(tenant, n)` requests on one multi hashring: routing and cache as in `getN`
+    (the selected ring is cached whether or not it can serve `n`) -/
+def getNSeqN (view : String → List Cfg) (sizes : List Nat) : Cache → List (String × Nat) → List Ans
+  | _, [] => []
+  | cache, (t, n) :: ts =>
+    let (r, cache') := getN view cache t
+    answer sizes n r :: getNSeqN view sizes cache' ts
+
 end Thanos.MultiRing
